@@ -36,10 +36,10 @@ func VerifH01() {
 	nd.Bound("H01.lengths", nl)
 	nd.Bound("H01.keys", nk)
 	nd.SetPreemptionBound(0)
-	w := newWorld(stdConfig(), []string{"a", "файл", "b"}[:nk])
+	w := newWorld(stdConfig(), []string{"a", " файл\n", "b"}[:nk]) // the second key has leading and trailing white space: keys are opaque
 	// Create on the second key runs with the storing goroutine ahead of the writer (parked waiting
 	// for data before every Write), on the other keys behind it (C12 explores the schedules between)
-	w.storerAhead = map[string]bool{"файл": true}
+	w.storerAhead = map[string]bool{" файл\n": true}
 	for i := 0; i < k; i++ {
 		op := nd.Choice("op", nk+nk+1)
 		switch {
